@@ -102,6 +102,10 @@ pub const ALPHA_VALUE: NonZeroUsize = NonZeroUsize::new(3).unwrap();
 
 pub const PROTOCOL_NAME: StreamProtocol = protocol::DEFAULT_PROTO_NAME;
 
+#[cfg(libp2p_verif)]
+#[doc(hidden)]
+pub mod verif_kad_beh;
+
 /// Constant shared across tests for the [`Multihash`](libp2p_core::multihash::Multihash) type.
 #[cfg(test)]
 const SHA_256_MH: u64 = 0x12;
